@@ -57,8 +57,16 @@ func c18Run(co *caseOut, kind string, in c18Input) {
 			co.violation(kind, "panic: "+p, in, nil)
 			return
 		}
-		if zc.Cmp(z) != 0 {
-			co.violation(kind, "ToBytes changed its argument", in, zc.String())
+		// the argument must come back unchanged (ToBytes works on the magnitude words in place for
+		// negative values); a corrupted big.Int may be denormalised, so every access is guarded
+		changed := false
+		if p := catch(func() { changed = zc.Cmp(z) != 0 || len(zc.Bits()) != len(z.Bits()) }); p != "" {
+			changed = true
+		}
+		if changed {
+			after := "(not printable: denormalised)"
+			catch(func() { after = zc.String() })
+			co.violation(kind, "ToBytes changed its argument", in, after)
 		}
 		tag := fmt.Sprintf("len%d", len(bs))
 		co.add(kind, tag, len(bs) > 0, in, hx(bs), fmt.Sprintf("CBigEnc %s %s", coqZ(z), coqBytes(bs)))
